@@ -250,6 +250,17 @@ def finish(ctx, level="model_checking"):
     return 1 if unexplained else 0
 
 
+def _no_null(x):
+    # TLC's JSON reader has no value for null
+    if x is None:
+        return "null"
+    if isinstance(x, dict):
+        return {k: _no_null(v) for k, v in x.items()}
+    if isinstance(x, (list, tuple)):
+        return [_no_null(v) for v in x]
+    return x
+
+
 def dump_json(path, obj):
     with open(path, "w") as f:
-        json.dump(obj, f, separators=(",", ":"))
+        json.dump(_no_null(obj), f, separators=(",", ":"))
